@@ -301,7 +301,7 @@ Proof.
   { intros X. destruct gf; try reflexivity; discriminate. }
   split.
   - rewrite (gradient_plain q gf rg dg d w Hg Ir Hd).
-    unfold gradient. cbn [gi_samples gi_vec gi_tag gi_is_arr orb].
+    unfold gradient. cbn [gi_samples gi_vec gi_tag gi_tag_par gi_tag_fun gi_is_arr orb].
     unfold two_par, two_par_gen at 1. cbn [bind p_v p_tag]. rewrite Ir. cbn [negb]. rewrite Hd', E.
     unfold two_fun, two_fun_gen at 1. unfold g_par2fun.
     destruct (g_par2fun_gen dg false w) as [wf|e]; cbn [bind rmap fst snd]; [|reflexivity].
@@ -310,7 +310,7 @@ Proof.
                   = Ok (d, Some (rg, false))) by (destruct ap; reflexivity).
     rewrite Edf. cbn [bind fst snd].
     destruct (run_gfun gf (fun_is_2d rg) d wf) as [[[gv flat] sel]|e]; cbn [bind fst snd]; [|reflexivity].
-    unfold out_values.
+    unfold out_values. rewrite if_same.
     assert (Tg : pick sel (Some (rg, false)) None = None \/ pick sel (Some (rg, false)) None = Some (rg, false))
       by (destruct sel; cbn; auto).
     destruct (g_grad dg) as [gg|].
@@ -319,7 +319,7 @@ Proof.
       { destruct Tg as [-> | ->]; destruct (ggrad_sel gg); cbn; auto. }
       rewrite rmap_rmap, (final_conversion_dir_tag q rg dg flat _ true _ Hr HC Tg2). reflexivity.
     + rewrite !rmap_rmap, (final_conversion_dir_tag q rg dg flat _ false _ Hr HC Tg). reflexivity.
-  - unfold gradient. cbn [gi_samples gi_vec gi_tag gi_is_arr orb]. unfold two_fun, two_fun_gen, g_par2fun.
+  - unfold gradient. cbn [gi_samples gi_vec gi_tag gi_tag_par gi_tag_fun gi_is_arr orb]. unfold two_fun, two_fun_gen, g_par2fun.
     rewrite (plain1d_par2fun_gen rg false d Hr). reflexivity.
 Qed.
 
@@ -341,3 +341,225 @@ Lemma witness_subclass :
   match forward q_today w7_F w7_rg w7_dg (InSub w7_dg true (zq [1;2;3]%Z)) true with
   | Ok (OutSub g ip _ _) => fields_eqb g w7_dg && negb ip | _ => false end = true.
 Proof. vm_compute. repeat split; reflexivity. Qed.
+
+(* ------------------------------------------------------------------------------------------ *)
+(* direction AND wrt given as CUQIarrays; the repaired state of the tag leak                    *)
+(* ------------------------------------------------------------------------------------------ *)
+Lemma out_cols_wrap b g r : out_cols (wrap_out b g r) = [p_v r].
+Proof. unfold wrap_out. destruct b; [reflexivity|]. destruct (p_tag r) as [[g' ip]|]; reflexivity. Qed.
+
+(* the final _2par for every tag that can arrive there outside the leak class *)
+Lemma final_conversion_general q rg dg flat val (isp b : bool) t :
+  plain1d (g_cls rg) = true -> eq_confused q rg dg = false ->
+  t = None \/ t = Some (rg, false) \/ (isp = true /\ t = Some (dg, true)) \/ (isp = false /\ t = Some (dg, false)) ->
+  rmap (fun a => out_cols (wrap_out b dg a)) (two_par_gen q dg flat val t isp) =
+  (if isp then Ok [val] else rmap (fun v => [v]) (g_fun2par_gen dg flat val)).
+Proof.
+  intros Hr HC Ht.
+  assert (E : forall X, rmap (fun a => out_cols (wrap_out b dg a)) X = rmap (fun a => [p_v a]) X).
+  { intros X. apply rmap_ext. intros a. apply out_cols_wrap. }
+  rewrite E. destruct Ht as [-> | [-> | [[-> ->] | [-> ->]]]]; unfold two_par_gen.
+  - destruct isp; [reflexivity|]. rewrite rmap_rmap. reflexivity.
+  - rewrite (geo_eq_unconfused q rg dg HC). cbn [bind]. destruct (geo_eqb q rg dg) eqn:Eq.
+    + rewrite plain1d_fun2par by exact Hr. cbn [rmap]. destruct isp; [reflexivity|].
+      destruct (geo_eqb_alike q rg dg HC Eq) as (H1 & _). rewrite <- H1, plain1d_fun2par by exact Hr. reflexivity.
+    + destruct isp; [reflexivity|]. rewrite rmap_rmap. reflexivity.
+  - rewrite geo_eq_refl. reflexivity.
+  - rewrite geo_eq_refl. cbn [bind]. rewrite rmap_rmap. reflexivity.
+Qed.
+
+(* the tag of wrt.funvals wins over the direction's and reaches the final conversion of a geometry gradient *)
+Definition tag_leaks_both (sel gsel : tsel) : bool :=
+  match sel, gsel with
+  | SelWrtDir, (SelDir | SelDirWrt) => true
+  | _, _ => false
+  end.
+
+(* common part: the direction is the ndarray d or a CUQIarray of it over the plain range geometry, the
+   linearisation point is a CUQIarray x over the domain geometry representing the parameters w *)
+Theorem gradient_array_forms_agree q gf rg dg (dplain : bool) d (apd dflag : bool) x (apw wflag : bool) w :
+  has_gradient_func gf = true -> plain1d (g_cls rg) = true ->
+  (has_grad dg = true \/ identity_class (g_cls dg) = true) ->
+  eq_confused q rg dg = false ->
+  (if apw then Ok x else g_fun2par dg x) = Ok w ->
+  (if apw then g_par2fun dg x else Ok x) = g_par2fun dg w ->
+  (q_tagleak q = true ->
+   forall gg df wf gv flat sel, g_grad dg = Some gg -> run_gfun gf (fun_is_2d rg) df wf = Ok (gv, flat, sel) ->
+     (if dplain then tag_leaks sel (ggrad_sel gg) else tag_leaks_both sel (ggrad_sel gg)) = false) ->
+  out_values (gradient q gf rg dg (if dplain then GiVec d else GiArr rg apd d) (GiArr dg apw x) (if dplain then true else dflag) wflag) =
+  out_values (gradient q gf rg dg (GiVec d) (GiVec w) true true).
+Proof.
+  intros Hg Hr Hd HC Hw Hf Hleak.
+  assert (Ir : identity_class (g_cls rg) = true) by (destruct (g_cls rg); try discriminate; reflexivity).
+  rewrite (gradient_plain q gf rg dg d w Hg Ir Hd).
+  assert (Hd' : negb (has_grad dg) && negb (identity_class (g_cls dg)) = false).
+  { destruct Hd as [-> | ->]; [reflexivity | apply andb_false_r]. }
+  assert (E : forall X : res output, match gf with GNone => Err ENotImpl | _ => X end = X).
+  { intros X. destruct gf; try reflexivity; discriminate. }
+  unfold gradient.
+  assert (Sd : gi_samples (if dplain then GiVec d else GiArr rg apd d) = false) by (destruct dplain; reflexivity).
+  rewrite Sd. cbn [gi_samples gi_vec gi_tag gi_tag_par gi_tag_fun orb].
+  unfold two_par, two_par_gen at 1. rewrite geo_eq_refl. cbn [bind].
+  assert (Ewp : (if apw then Ok (mkP2 x (Some (dg, true)) false)
+                 else rmap (fun v => mkP2 v (Some (dg, true)) (g_f2p_0d dg)) (g_fun2par_gen dg false x))
+                = Ok (mkP2 w (Some (dg, true)) (if apw then false else g_f2p_0d dg))).
+  { destruct apw; [inversion Hw; reflexivity|]. unfold g_fun2par in Hw. rewrite Hw. reflexivity. }
+  rewrite Ewp. cbn [bind p_v p_tag]. rewrite Ir. cbn [negb]. rewrite Hd', E.
+  unfold two_fun, two_fun_gen at 1. rewrite geo_eq_refl. cbn [bind].
+  assert (Ewf : (if apw then rmap (fun f => (f, Some (dg, false))) (g_par2fun dg x) else Ok (x, Some (dg, false)))
+                = rmap (fun f => (f, Some (dg, false))) (g_par2fun dg w)).
+  { destruct apw; [rewrite Hf; reflexivity|]. rewrite <- Hf. reflexivity. }
+  rewrite Ewf. destruct (g_par2fun dg w) as [wf|e]; cbn [bind rmap fst snd]; [|reflexivity].
+  (* the direction *)
+  assert (Edf : exists td, (td = None /\ dplain = true \/ td = Some (rg, false) /\ dplain = false) /\
+                two_fun_gen q rg false (gi_vec (if dplain then GiVec d else GiArr rg apd d))
+                            (gi_tag_fun q (if dplain then GiVec d else GiArr rg apd d)) (if dplain then true else dflag) = Ok (d, td)).
+  { destruct dplain; cbn [gi_vec gi_tag gi_tag_fun]; unfold two_fun_gen.
+    - exists None. split; [left; split; reflexivity|]. rewrite (plain1d_par2fun_gen rg false d Hr). reflexivity.
+    - exists (Some (rg, false)). split; [right; split; reflexivity|]. rewrite geo_eq_refl. cbn [bind].
+      rewrite (plain1d_par2fun rg d Hr). destruct apd; reflexivity. }
+  destruct Edf as (td & Htd & Edf). rewrite Edf. cbn [bind fst snd].
+  unfold g_par2fun. rewrite (plain1d_par2fun_gen rg false d Hr). cbn [bind].
+  destruct (run_gfun gf (fun_is_2d rg) d wf) as [[[gv flat] sel]|e] eqn:Erun; cbn [bind fst snd]; [|reflexivity].
+  unfold out_values.
+  destruct (g_grad dg) as [gg|] eqn:Egg.
+  - rewrite rmap_rmap.
+    rewrite (final_conversion_general q rg dg flat _ true _ _ Hr HC); [reflexivity|].
+    destruct (q_tagleak q) eqn:Q.
+    + specialize (Hleak eq_refl gg d wf gv flat sel eq_refl Erun).
+      destruct Htd as [[-> ->] | [-> ->]]; destruct sel, (ggrad_sel gg); cbn in Hleak |- *; try discriminate; auto.
+    + destruct Htd as [[-> _] | [-> _]]; destruct sel, (ggrad_sel gg); cbn; auto.
+  - rewrite !rmap_rmap.
+    rewrite (final_conversion_general q rg dg flat _ false _ _ Hr HC); [reflexivity|].
+    destruct (q_tagleak q); destruct Htd as [[-> _] | [-> _]]; destruct sel; cbn; auto.
+Qed.
+
+(* ------------------------------------------------------------------------------------------ *)
+(* StepExpansion: par2fun is the linear map of the 0/1 matrix S (node k takes parameter owner(k)) *)
+(* and the geometry gradient used with it (sum over each step) is S^T                           *)
+(* ------------------------------------------------------------------------------------------ *)
+Lemma qdot_map_map {A} (a g : A -> Qc) l : qdot (map a l) (map g l) = qsumv (map (fun k => a k * g k) l).
+Proof. unfold qdot. induction l as [|x l IH]; simpl; [reflexivity|]. rewrite IH. reflexivity. Qed.
+
+Lemma qsumv_filter (a : nat -> Qc) P l : qsumv (map (fun k => a k * ind (P k)) l) = qsumv (map a (filter P l)).
+Proof.
+  induction l as [|x l IH]; simpl; [reflexivity|]. rewrite IH. destruct (P x); simpl; unfold ind; ring.
+Qed.
+
+Lemma qsumv_indicator (a : nat -> Qc) j n s :
+  qsumv (map (fun i => ind (Nat.eqb j i) * a i) (seq s n)) = if (s <=? j)%nat && (j <? s + n)%nat then a j else 0.
+Proof.
+  revert s; induction n as [|n IH]; intros s.
+  - cbn [seq map]. destruct (s <=? j)%nat eqn:E1; cbn [andb]; [|reflexivity].
+    destruct (j <? s + 0)%nat eqn:E2; [|reflexivity]. apply Nat.leb_le in E1. apply Nat.ltb_lt in E2. lia.
+  - change (seq s (S n)) with (s :: seq (S s) n). cbn [map]. unfold qsumv in *. cbn [fold_right]. rewrite IH.
+    replace (S s + n)%nat with (s + S n)%nat by lia.
+    destruct (Nat.eqb j s) eqn:Ej; [apply Nat.eqb_eq in Ej | apply Nat.eqb_neq in Ej];
+    destruct (s <=? j)%nat eqn:E1; [apply Nat.leb_le in E1 | apply Nat.leb_gt in E1 | apply Nat.leb_le in E1 | apply Nat.leb_gt in E1];
+    (destruct (S s <=? j)%nat eqn:E2; [apply Nat.leb_le in E2 | apply Nat.leb_gt in E2]);
+    (destruct (j <? s + S n)%nat eqn:E3; [apply Nat.ltb_lt in E3 | apply Nat.ltb_ge in E3]);
+    try lia; cbn [andb]; unfold ind; try subst s; ring.
+Qed.
+
+Lemma map_nth_seq_gen {A} (d : A) (l : list A) : map (fun j => nth j l d) (seq 0 (length l)) = l.
+Proof.
+  induction l as [|a l IH]; [reflexivity|].
+  cbn [length seq map]. rewrite <- seq_shift, map_map. cbn [nth]. rewrite IH. reflexivity.
+Qed.
+
+Lemma nth_map_seq (f : nat -> Qc) n i d : (i < n)%nat -> nth i (map f (seq 0 n)) d = f i.
+Proof.
+  intros H. rewrite (nth_indep _ d (f 0%nat)) by (rewrite map_length, seq_length; exact H).
+  rewrite map_nth, seq_nth by exact H. reflexivity.
+Qed.
+
+Lemma qsumv_zero {A} (a : A -> Qc) l : qsumv (map (fun i => ind false * a i) l) = 0.
+Proof.
+  unfold qsumv. induction l as [|x l IH]; cbn [map fold_right]; [reflexivity|]. rewrite IH. unfold ind. ring.
+Qed.
+
+Lemma step_owner_bound idx k i0 acc j :
+  step_owner idx k i0 acc = Some j -> (acc = Some j \/ (i0 <= j < i0 + length idx)%nat).
+Proof.
+  revert i0 acc; induction idx as [|s r IH]; intros i0 acc H; simpl in H.
+  - left. exact H.
+  - apply IH in H. destruct H as [H|H]; [|right; simpl; lia].
+    destruct (existsb (Nat.eqb k) s); [inversion H; subst; right; simpl; lia | left; exact H].
+Qed.
+
+Lemma step_jac_wf nfun idx : wf_mat (length idx) (step_jac nfun idx).
+Proof.
+  unfold wf_mat, step_jac. apply Forall_forall. intros row Hin. apply in_map_iff in Hin as (k & <- & _).
+  rewrite map_length, seq_length. reflexivity.
+Qed.
+
+Lemma step_jac_length nfun idx : length (step_jac nfun idx) = nfun.
+Proof. unfold step_jac. rewrite map_length, seq_length. reflexivity. Qed.
+
+(* par2fun p = S p *)
+Theorem step_par2fun_is_matvec nfun idx p : length p = length idx ->
+  step_par2fun nfun idx p = qmatvec (step_jac nfun idx) p.
+Proof.
+  intros Hp. unfold step_par2fun, qmatvec, matvec, step_jac. rewrite map_map. apply map_ext. intros k.
+  transitivity (qdot (map (fun i => ind (owner_is idx k i)) (seq 0 (length idx))) (map (fun i => nth i p 0) (seq 0 (length idx))));
+    [| unfold qdot; f_equal; rewrite <- Hp; apply map_nth_seq].
+  rewrite qdot_map_map.
+  unfold owner_is. destruct (step_owner idx k 0 None) as [j|] eqn:Eo.
+  - rewrite (qsumv_indicator (fun i => nth i p 0) j (length idx) 0).
+    apply step_owner_bound in Eo as [Eo|Eo]; [discriminate|].
+    assert (H1 : (0 <=? j)%nat = true) by (apply Nat.leb_le; lia).
+    assert (H2 : (j <? 0 + length idx)%nat = true) by (apply Nat.ltb_lt; lia).
+    rewrite H1, H2. reflexivity.
+  - symmetry. apply qsumv_zero.
+Qed.
+
+(* sum over each step = S^T v *)
+Theorem step_gradient_is_transpose nfun idx v w : step_wf nfun idx = true -> length v = nfun ->
+  ggrad_apply (GGStepSum idx) v w = qmattvec (length idx) (step_jac nfun idx) v.
+Proof.
+  intros Hwf Hv.
+  rewrite <- vecmat_is_mattvec by (try apply step_jac_wf; rewrite step_jac_length; exact Hv).
+  unfold ggrad_apply, vecmat.
+  transitivity (map (fun i => qsumv (map (nthq v) (nth i idx []))) (seq 0 (length idx))).
+  { rewrite <- (map_map (fun i => nth i idx []) (fun s => qsumv (map (nthq v) s))), map_nth_seq_gen. reflexivity. }
+  apply map_ext_in. intros i Hi. apply in_seq in Hi.
+  unfold step_wf in Hwf. rewrite forallb_forall in Hwf.
+  specialize (Hwf i (proj2 (in_seq _ _ _) Hi)). apply natl_eqb_eq in Hwf.
+  replace (nth i idx []) with (filter (fun k => owner_is idx k i) (seq 0 nfun)) by (symmetry; exact Hwf).
+  unfold col, step_jac. rewrite map_map.
+  transitivity (qdot (map (fun k => nth k v 0) (seq 0 nfun)) (map (fun k => ind (owner_is idx k i)) (seq 0 nfun))).
+  - rewrite qdot_map_map, qsumv_filter. reflexivity.
+  - unfold qdot. f_equal.
+    + rewrite <- Hv. apply map_nth_seq.
+    + apply map_ext. intros k.
+      symmetry. apply (nth_map_seq (fun i0 => ind (owner_is idx k i0))). lia.
+Qed.
+
+(* StepExpansion domain geometry with the step-sum gradient attached *)
+Definition step_geo (dg : geo) (nfun : nat) (idx : list (list nat)) (pj : proj) (sq : bool) : Prop :=
+  g_cls dg = KStep /\ g_conv dg = CvStep nfun idx pj sq /\ g_map dg = None /\ g_grad dg = Some (GGStepSum idx).
+
+(* chain rule through a StepExpansion domain: J = J_F(S w) S, gradient = J^T direction; no law assumed *)
+Theorem gradient_chain_step q gf rg dg n A csF idx pj sq d w :
+  poly_gfun gf n A csF -> step_geo dg n idx pj sq -> plain1d (g_cls rg) = true ->
+  step_wf n idx = true -> wf_mat n A -> length w = length idx -> length d = length A ->
+  gradient q gf rg dg (GiVec d) (GiVec w) true true =
+  Ok (OutVec (qmattvec (length idx)
+                (qmatmul (length idx) (poly_jac A (pderiv csF) (step_par2fun n idx w)) (step_jac n idx)) d) false).
+Proof.
+  intros Hgf (Hc & Hv & Hm & Hg) Hr Hwf HA Hw Hd.
+  assert (Lw : length (step_par2fun n idx w) = n) by (unfold step_par2fun; rewrite map_length, seq_length; reflexivity).
+  destruct (poly_gfun_run gf n A csF d (step_par2fun n idx w) Hgf HA Lw Hd) as (Hgg & flat & sel & Hrun).
+  apply (gradient_chain q gf rg dg (GGStepSum idx) d w (step_par2fun n idx w) n (length idx)
+                        (poly_jac A (pderiv csF) (step_par2fun n idx w)) (step_jac n idx) flat sel); try assumption.
+  - unfold g_par2fun, g_par2fun_gen. rewrite Hc, Hv, Hm. cbn [plain1d conv_par2fun].
+    rewrite (proj2 (Nat.eqb_eq _ _) Hw). reflexivity.
+  - intros v Lv. apply step_gradient_is_transpose; assumption.
+  - rewrite poly_jac_col_scale. apply col_scale_wf; [exact HA|]. unfold pmap. rewrite map_length. exact Lw.
+  - apply step_jac_wf.
+  - apply step_jac_length.
+Qed.
+
+(* a concrete well-formed index family: StepExpansion(4 nodes, 2 steps) *)
+Lemma step_wf_example : step_wf 4 [[0;1];[2;3]]%nat = true /\ step_wf 6 [[0;1];[2;3];[4;5]]%nat = true.
+Proof. split; reflexivity. Qed.
